@@ -23,7 +23,8 @@ ASSUME = [
 def run(prop, tier, vseed):
     t0 = time.time()
     rm = RowMachine()
-    tm = TableMachine({"save_reload": prop == "C02", "save_reload_depth": 1 if tier == "quick" else 2})
+    tm = TableMachine({"save_reload": prop == "C02", "save_reload_depth": 1 if tier == "quick" else 2,
+                       "save_reload_seeds": "rep" if tier == "quick" else "all"})
     if tier == "quick" and prop == "C02":
         plan = [
             (rm, [{"alphabet": "full", "depth": 2}]),
